@@ -27,7 +27,7 @@ MANIFEST = {
              'iteration; index bookkeeping (disp_auth_idx_entry etc.) is taken as the code computes it.'),
 }
 EXPLANATION = 'Gate formulas of TrainDisp::advance as named-sub-term specifications of the SVN terms of one loop iteration.'
-RULES = ['C04-0.start', 'C04-1.direction', 'C04-2.lockout', 'C04-3.exit', 'C04-4.entry', 'C04-5.offset', 'C04-6.clear', 'C04-7.occupancy', 'C04-8.index', 'C04-9.blocked']
+RULES = ['C04-0.start', 'C04-1.direction', 'C04-2.lockout', 'C04-3.exit', 'C04-4.entry', 'C04-5.offset', 'C04-6.clear', 'C04-7.occupancy', 'C04-8.index', 'C04-9.blocked', 'C04-10.sentinel']
 ASSUMPTIONS = ['index bookkeeping of dispatch nodes and authorities is as computed by the code (not decided)']
 
 FID = 'TrainDisp::advance'
@@ -467,6 +467,58 @@ def occupancy(ctx, b, an):
               'fields set by advance but not reset by rewind: %s; pops: %d' % (missing, len(pops)), ctx.where(rb))
     index_provenance(ctx, [(b, an)] + ([(ub, uan)] if ub is not None else []) + [(rb, ran)])
     links_blocked_rule(ctx)
+    sentinels(ctx, b, an)
     for fld in sorted(adv & rew):
         vals = {show(val)[:20] for bb, path, val, span in ran.stores_log if path[0] == ('obj', 2) and path[-1] == ('f', fld)}
         ctx.check(vals <= {'INF', '0'}, R, 'TrainDisp::rewind|' + fld, 'rewind resets %s to its "not yet" value' % fld, 'reset values %s' % sorted(vals), ctx.where(rb))
+
+
+def sentinels(ctx, b, an):
+    """C04-10.sentinel: the gates of `advance` compare time stamps of authorities, and two kinds of authority carry no real stamps:
+    the per-link placeholder that stands for "no train has used this link" (every gate must pass: all stamps -inf) and the
+    authority of a train that has entered but not yet cleared (every later train must wait: clear stamps +inf, which is also how
+    the direction gate tells a leader still inside the link from an opposing train that has left).  Decided: the placeholder
+    `run_dispatch` seeds every link with has all four stamps -inf; the authority pushed on entry keeps `clear_entry`,
+    `clear_exit` and `arrive_exit` at +inf; a rewind that re-opens an authority resets `clear_exit` to +inf."""
+    R = 'C04-10.sentinel'
+    prog = ctx.prog
+    eng = engine(ctx)
+    INF = ('sym', 'INF')
+    NINF = mk('neg', INF)
+    def flds(t):
+        return dict(t[2]) if t is not None and t[0] == 'agg' else {}
+    # entry authority
+    ps = [c for c in an.calls if re.sub(r'::<.*?>', '', c.callee).endswith('::push') and 'DispAuth' in c.callee and len(c.argvals) > 1]
+    if len(ps) != 1:
+        ctx.unproved(R, FID + '|entry authority', 'expected one push of a new authority, found %d' % len(ps), ctx.where(b))
+    else:
+        f = flds(ps[0].argvals[1])
+        okp = all(f.get(k) == INF for k in ('clear_entry', 'clear_exit', 'arrive_exit'))
+        ctx.check(okp, R, FID + '|entry authority', 'a train that has entered and not cleared holds the link for ever: clear_entry = clear_exit = arrive_exit = +inf',
+                  'the authority pushed on entry has %s' % {k: show(f.get(k), an.names)[:40] if f.get(k) is not None else None for k in ('clear_entry', 'clear_exit', 'arrive_exit')},
+                  ctx.where(b, ps[0].span))
+    # the per-link placeholder
+    rd = [prog.by_id[x] for x in prog.by_id if (x == 'run_dispatch' or x.endswith('::run_dispatch')) and not prog.by_id[x].test]
+    if len(rd) != 1:
+        ctx.unproved(R, 'run_dispatch|placeholder', 'run_dispatch not found (anchor)')
+    else:
+        ra = eng.analysis(rd[0])
+        fe = [c for c in ra.calls if 'from_elem' in c.callee and 'DispAuth' in c.callee]
+        ok = False
+        txt = None
+        if len(fe) == 1 and fe[0].argvals and fe[0].argvals[0][0] == 'array' and len(fe[0].argvals[0]) == 2:
+            f = flds(fe[0].argvals[0][1])
+            txt = {k: show(f.get(k), ra.names)[:40] if f.get(k) is not None else None for k in ('arrive_entry', 'arrive_exit', 'clear_entry', 'clear_exit')}
+            ok = all(f.get(k) == NINF for k in ('arrive_entry', 'arrive_exit', 'clear_entry', 'clear_exit')) and f.get('train_idx') == ('none',)
+        ctx.check(ok, R, 'run_dispatch|placeholder', 'every link starts with one placeholder authority of no train whose four stamps are -inf',
+                  'the initial authority list of a link is %s' % (txt if txt else [show(a, ra.names)[:200] for c in fe for a in c.argvals]), ctx.where(rd[0]))
+    # rewind re-opens an authority
+    rb = prog.by_id.get('TrainDisp::rewind')
+    if rb is None:
+        ctx.unproved(R, 'TrainDisp::rewind|re-open', 'anchor not found'); return
+    eng.all_paths.add(rb.fid)
+    ran = eng.analysis(rb)
+    st = [(bb, path, val, span) for bb, path, val, span in ran.stores_log if path and path[-1] == ('f', 'clear_exit')]
+    ok = len(st) >= 1 and all(val == INF for bb, path, val, span in st)
+    ctx.check(ok, R, 'TrainDisp::rewind|re-open', 'the only value a rewind writes into a clear_exit stamp is +inf (the train is back inside the link)',
+              'rewind stores %s into clear_exit' % [show(val, ran.names)[:60] for bb, path, val, span in st], ctx.where(rb))
